@@ -1785,13 +1785,11 @@ where
     ) -> Result<ConnectionPool, Error> {
         let pool = self.get_pool().await?;
 
-        // A reload may have changed the pool's default role: a client that is still on the
-        // old default (it did not pick a role itself) follows the new one.
+        // A reload may have changed the pool's default role: a client that is on the default
+        // (it did not pick a role itself and none was inferred from its statement) follows it.
         let previous_default_role = query_router.pool_settings().default_role;
         query_router.update_pool_settings(&pool.settings);
-        if pool.settings.default_role != previous_default_role
-            && query_router.role() == previous_default_role
-        {
+        if pool.settings.default_role != previous_default_role && query_router.role_is_default() {
             query_router.set_default_role();
         }
 
